@@ -318,6 +318,12 @@ const basePrelude = `(set-logic ALL)
 (declare-fun sub (Ref Int) Ref)
 (declare-fun sub.base (Ref) Ref)
 (declare-fun sub.idx (Ref) Int)
+(declare-fun f64.ofint (Int) Real)
+(declare-fun f64.toint (Real) Int)
+(declare-fun f64.sub (Real Real) Real)
+(declare-fun f64.add (Real Real) Real)
+(declare-fun f64.mul (Real Real) Real)
+(declare-fun f64.div (Real Real) Real)
 (declare-fun cid.str (Cid) Str)
 (declare-fun cid.ofstr (Str) Cid)
 (define-fun nil!slice () Slice (mk-slice null 0 0))
@@ -346,4 +352,8 @@ const basePrelude = `(set-logic ALL)
 (assert (forall ((s Slice)) (! (=> (>= (slen s) 0) (= (byteslen (bytesOf s)) (slen s))) :pattern ((bytesOf s)))))
 (assert (forall ((r Ref) (k Int)) (! (and (= (sub.base (sub r k)) r) (= (sub.idx (sub r k)) k) (not (= (sub r k) null)) (= (epoch (sub r k)) (epoch r))) :pattern ((sub r k)))))
 (assert (forall ((c Cid)) (! (= (cid.ofstr (cid.str c)) c) :pattern ((cid.str c)))))
+(assert (forall ((x Int) (y Int)) (! (=> (<= x y) (<= (f64.ofint x) (f64.ofint y))) :pattern ((f64.ofint x) (f64.ofint y)))))
+(assert (forall ((x Int)) (! (=> (and (<= (- 9007199254740992) x) (<= x 9007199254740992)) (= (f64.ofint x) (to_real x))) :pattern ((f64.ofint x)))))
+(assert (forall ((a Real) (b Real)) (! (and (= (= (f64.sub a b) 0.0) (= a b)) (= (< (f64.sub a b) 0.0) (< a b))) :pattern ((f64.sub a b)))))
+(assert (forall ((x Int)) (! (=> (and (<= (- 9007199254740992) x) (<= x 9007199254740992)) (= (f64.toint (to_real x)) x)) :pattern ((f64.toint (to_real x))))))
 `
